@@ -111,6 +111,16 @@ func genC18Meta(r *rng) c18Meta {
 
 	m := c18Meta{NS: pick(r, []string{"n1", "default", "ns-ü"}), Typ: pick(r, harnessTypes), ID: id(), Owner: pick(r, []string{"", "ctrl", "c ü"}), Tearing: r.chance(1, 3), Payload: s()}
 
+	if r.chance(1, 25) {
+		// a large spec: far beyond every compression threshold and window
+		big := make([]byte, pick(r, []int{70 << 10, 200 << 10, 600 << 10}))
+		for i := range big {
+			big[i] = byte('a' + (i*7+i/253)%23)
+		}
+
+		m.Payload = string(big)
+	}
+
 	switch r.intn(6) {
 	case 0:
 	case 1:
@@ -635,6 +645,20 @@ func TestC18(t *testing.T) {
 				for _, short := range [][]byte{nil, enc[:1], enc[:13], enc[:len(enc)-1]} {
 					if _, err := st.UnmarshalResource(short); err == nil {
 						viol("stack:tamper-undetected", fmt.Sprintf("tamper: truncated record of %d bytes accepted", len(short)))
+					}
+				}
+
+				// whole-record substitution by well-formed plaintext encodings (of this and of the inner layers' output)
+				forged := newRes(m.NS, m.Typ, m.ID, "forged")
+				forged.Metadata().SetOwner("attacker") //nolint:errcheck
+
+				if inner, err := buildStack(stackSpec{Layers: spec.Layers[1:]}, keys); err == nil {
+					for _, layers := range []store.Marshaler{store.ProtobufMarshaler{}, inner} {
+						if plain, err := layers.MarshalResource(forged); err == nil {
+							if rr, err := st.UnmarshalResource(plain); err == nil {
+								viol("stack:tamper-undetected", fmt.Sprintf("tamper: an unencrypted record substituted for an encrypted one was accepted (decoded %v)", rr.Metadata()))
+							}
+						}
 					}
 				}
 
